@@ -7,6 +7,8 @@ GO126 = ["go1.26.8"]
 BINARIES = {
     # all engines on the repository's own toolchain
     "hx": {"go": GO, "pkg": "./hx/", "flags": [], "env": {"GOTOOLCHAIN": "auto"}},
+    # message constructors / decoders (small dependency tree: fast native fuzzing)
+    "wire": {"go": GO, "pkg": "./wire/", "flags": [], "env": {"GOTOOLCHAIN": "auto"}},
 }
 
 PROPS = {}
@@ -63,6 +65,17 @@ prop("C10", "Restart resumes the same transfer", "exploration", "mgrx",
      "generated roles x progress points x statuses x process restart x validator outcomes; sampled",
      TRUST)
 
+prop("C12", "Wire format is lossless, stable and safe to decode", "exploration", "wire",
+     "property testing (rapid): round trips on three paths, byte equality with an independent schema encoder (own CBOR writer), key-order metamorphic relation, kind classification; structured byte/node mutations and coverage-guided native fuzzing (go test -fuzz) with the totality oracle in the target",
+     [{"bin": "wire", "test": "TestC12_RoundTrip", "quick": 20000, "thorough": 800000, "shards_thorough": 16},
+      {"bin": "wire", "test": "TestC12_Hostile", "quick": 30000, "thorough": 1600000, "shards_thorough": 16},
+      {"bin": "wire", "test": "TestC12_Seeds", "quick": 1, "thorough": 1, "rapid": False},
+      {"bin": "wire", "test": "FuzzFromNet", "gofuzz": True, "tiers": ["thorough"], "fuzztime_thorough": 180}],
+     ["ValidationResultResponse is exercised with the message types a response can have (new, update, cancel, complete, voucher-result, restart)",
+      "message type numbers and schema key names are literals in the harness, i.e. what deployed peers expect"],
+     "generated messages over the full value space and generated hostile inputs; native fuzzing in the thorough tier; sampled, not exhaustive",
+     "trusts the harness's own CBOR writer (80 lines) as the schema oracle and go-ipld-prime's generic decoder for stage classification")
+
 prop("C17", "Subscribers see every applied event once, in order", "exploration", "mgrx",
      "stateful property testing (rapid): subscriber call logs compared with the datastore write log (independent DAG-CBOR reader) and with a witness subscriber restricted to fenced subscription windows",
      [hx("TestC17_Mgrx", 1000, 24000)],
@@ -116,6 +129,7 @@ prop("C19", "Channel state views are total and self-consistent", "exploration", 
      TRUST)
 
 ENGINES = [
+    {"name": "wire", "path": "harness/wire", "serves_properties": ["C12"], "kind_free_text": "rapid property tests and a native fuzz target over the message constructors and decoders, with an independent schema encoder"},
     {"name": "mgrx", "path": "harness/hx (mgrx_*_test.go, rig_mgr_test.go)", "serves_properties": ["C02", "C03", "C04", "C05", "C08", "C09", "C10", "C11", "C17", "C19"], "kind_free_text": "rapid property tests driving a real manager (impl.NewDataTransfer) over a recording datastore, transport, network and scripted validators"},
     {"name": "fsmx", "path": "harness/hx (fsmx_*_test.go)", "serves_properties": ["C02", "C03", "C06", "C07", "C08", "C09", "C11", "C19"], "kind_free_text": "rapid state-machine tests driving channels.Channels over a recording datastore and environment"},
 ]
